@@ -2,6 +2,8 @@
 From Coq Require Import ZArith List String.
 Import ListNotations.
 Local Open Scope string_scope.
+Definition gen_written_globals : list (string * string * string) := [("x/clp/abci.go", "MeasureBlockTime", "blockTime");
+  ("x/oracle/types/codec.go", "init", "ModuleCdc")].
 Definition gen_numeric_globals : list (string * string) := [("app/ante/commission.go", "MinCommission");
   ("app/ante/commission.go", "maxVotingPower");
   ("x/ethbridge/types/test_common.go", "testCethAmount");
